@@ -145,7 +145,8 @@ def _walks(d):
 def rand_parts(rng, d):
     """a path of >= 2 keys: an existing one, one that leaves the tree (missing part), one that runs into a flat value"""
     paths = [p for p in _walks(d) if len(p) >= 2]
-    flat = [k for k, v in d.items() if v is None or (isinstance(v, (int, float)) and not isinstance(v, bool))]
+    # every kind of leaf (review v2 W5): None / numbers, and the strings ('u' in 'u' is a SUBSTRING test), tuples and lists of FLAT_VALS
+    flat = [k for k, v in d.items() if not isinstance(v, dict)]
     r = rng.random()
     if paths and r < 0.5:
         return rng.choice(paths)
@@ -153,7 +154,10 @@ def rand_parts(rng, d):
         p = rng.choice(paths)
         return p[:-1] + [rng.choice(['q', 'zz', p[-1] + 'x'])]
     if flat and r < 0.85:
-        return [rng.choice(flat), rng.choice(['x', 'y'])]
+        k = rng.choice(flat)
+        v = d[k]
+        last = rng.choice(['x', 'y']) if not isinstance(v, str) or rng.random() < 0.4 else rng.choice([v, v, v[:1], ''])   # a part that IS (in) the string leaf
+        return [k, last] + (['z'] if rng.random() < 0.15 else [])
     return [rng.choice([k for k in KEYS + ['zz'] if k not in d] or ['zz2']), rng.choice(['x', 'y'])]
 
 
